@@ -9,6 +9,7 @@ Record putcase := mkPut {
   u_rep : list nat;
   u_ecr : list (nat * nat);
   u_ack : list nat;
+  u_session : bool;
   u_ini : option initial;
   u_scheds : list (list nat);                 (* per EC rule: schedule found by the driver *)
   o_status : nat;                             (* 0 ok, 1 incomplete, 2 error *)
@@ -35,7 +36,7 @@ Fixpoint index_of (n : nat) (l : list nat) : nat :=
 
 (* ---- model ---------------------------------------------------------------------------- *)
 Definition model_rep_ok (c : putcase) : bool :=
-  let '(st, p, _) := save_rep (ack_of c) (u_local c) (u_lists c) (u_rep c) (u_ini c) in
+  let '(st, p, _) := put_rep (u_session c) (ack_of c) (u_local c) (u_lists c) (u_rep c) (u_ini c) in
   Nat.eqb (status_code st) (o_status c)
   && list_eqb (sort (rp_sent p)) (sort (map send_node (o_sends c)))
   && forallb (fun s => Nat.eqb (send_rule s) 0) (o_sends c).
@@ -56,7 +57,13 @@ Definition model_ec_ok (c : putcase) : bool :=
   (* every call that was made: same sends in the same order, all parts finished *)
   && forallb (fun r => let '(e, s) := r in
                        let nodes := nth e (u_lists c) [] in
-                       pairs_eqb (map (fun pi => (fst pi, nth (snd pi) nodes 0)) (ec_log s)) (sends_of_rule c e)
+                       let mlog := map (fun pi => (fst pi, nth (snd pi) nodes 0)) (ec_log s) in
+                       (* same sends, in the same order for every part (parts run concurrently) *)
+                       Nat.eqb (length mlog) (length (sends_of_rule c e))
+                       && forallb (fun q => pairs_eqb (filter (fun pn => Nat.eqb (fst pn) q) mlog)
+                                                      (filter (fun pn => Nat.eqb (fst pn) q) (sends_of_rule c e)))
+                                  (seq 0 (length (ec_parts s)))
+                       && forallb (fun pn => Nat.ltb (fst pn) (length (ec_parts s))) (sends_of_rule c e)
                        && ec_all_finished s) runs
   (* calls that were not made sent nothing *)
   && forallb (fun e => memb e (map fst runs) || match sends_of_rule c e with [] => true | _ => false end)
